@@ -58,7 +58,8 @@ def corpus() -> list[tuple[str, str]]:
         "SetComp": ["{x for x in a}", "{x for x in a if x}"], "DictComp": ["{k: v for k, v in a}", "{k: v for k in a if k}", "{k: v for k in a for v in k}"],
         "GeneratorExp": ["(x for x in a)", "(x for x in a if x)"],
         "Yield": ["(yield)", "(yield a)"], "YieldFrom": ["(yield from a)"], "Starred": ["[*a]", "f(*a)"],
-        "JoinedStr": ["f'{a}'", "f'x{a}y'", "f'{a!r}'", "f'{a!s}'", "f'{a:>10}'", "f'{a!r:>10}'", "f'{a:{b}}'", "f'{a}{b}'", "f'{{a}}'", "f\"it's {a}\"", "f'{a.b}'", "f'{f(a)}'", "f'{a[\"k\"]}'", "f'{\"s\"}'", "f'{a:{b}.{c}f}'", "f'x\\ny{a}'", "f\"{f'{a}b'}\"", "f\"x{f'y{a}z{b!r}'}w\"", "f\"{a:{f'{b}'}}\""],
+        "JoinedStr": ["f'{a}'", "f'x{a}y'", "f'{a!r}'", "f'{a!s}'", "f'{a:>10}'", "f'{a!r:>10}'", "f'{a:{b}}'", "f'{a}{b}'", "f'{{a}}'", "f\"it's {a}\"", "f'{a.b}'", "f'{f(a)}'", "f'{a[\"k\"]}'", "f'{\"s\"}'", "f'{a:{b}.{c}f}'", "f'x\\ny{a}'", "f\"{f'{a}b'}\"", "f\"x{f'y{a}z{b!r}'}w\"", "f\"{a:{f'{b}'}}\"",
+                      "f'{ {1: 2}[1] }'", "f'{ {1, 2}.pop() }'", "f'{ {k: 1 for k in d}.keys() }'", "f'{ {1} | a }'", "f'{ {1: 2} }'", "f'{ {1}.union(a)!r:>{w}}'"],
     }
     for cls, srcs in singles.items():
         for s in srcs:
@@ -221,7 +222,7 @@ def run(prog: Program, ctx: Ctx) -> None:  # noqa: PLR0912,PLR0915
         pkg.attrs["package"] = pkg
 
         def resolve(name):
-            return {"Literal": "typing.Literal", "typing": "typing", "Optional": "typing.Optional"}.get(name) or (_ for _ in ()).throw(Raised("NameResolutionError"))
+            return {"Literal": "typing.Literal", "typing": "typing", "Optional": "typing.Optional", "Annotated": "typing.Annotated"}.get(name) or (_ for _ in ()).throw(Raised("NameResolutionError"))
 
         from sa.absint import Native
 
@@ -237,7 +238,11 @@ def run(prog: Program, ctx: Ctx) -> None:  # noqa: PLR0912,PLR0915
             ctx.ob("R4", f"parse|module future={mod_future}|package future={pkg_future}|{scope_label}", got == want,
                    f"string annotation in a module that {'postpones' if mod_future else 'does not postpone'} evaluation (package: {pkg_future}): `{got}`, expected `{want}`", where(ge))
         if not mod_future:
-            for lbl, n_, want in (("Literal", lit, "Literal['A.B', 'c']"), ("typing.Literal", lit_attr, "typing.Literal['x']"), ("Optional", opt, "Optional[A.B]")):
+            # (PEP 593: only the first argument of Annotated is a type; the metadata after it are ordinary values, strings included)
+            ann1 = ast.parse("Annotated['A.B', 'doc', dict(alias='name'), Literal['x']]", mode="eval").body
+            ann2 = ast.parse("Optional[Annotated['A.B', 'doc']]", mode="eval").body
+            for lbl, n_, want in (("Literal", lit, "Literal['A.B', 'c']"), ("typing.Literal", lit_attr, "typing.Literal['x']"), ("Optional", opt, "Optional[A.B]"),
+                                  ("Annotated", ann1, "Annotated[A.B, 'doc', dict(alias='name'), Literal['x']]"), ("Optional[Annotated]", ann2, "Optional[Annotated[A.B, 'doc']]")):
                 try:
                     e = it.call(ge, n_, m_)
                     got = it._str(e)
